@@ -339,3 +339,5 @@ import fam_frame, fam_socks, fam_chain
 FAMILY["C09"] = fam_frame.check
 FAMILY["C18"] = fam_socks.check
 FAMILY["C20"] = fam_chain.check
+import fam_keepalive
+FAMILY["C16"] = fam_keepalive.check
